@@ -28,23 +28,25 @@ PROP = "C33"
 MZ = "bluesky.callbacks.zmq"
 TRUSTED = ["bytes are strings over code points 0..255; bytes.split(b' ', n) is defined by recursion through indexof: no space -> [s]; "
            "otherwise [s[:i]] + split(s[i+1:], n-1) with i the first space (for a concatenation a ++ ' ' ++ r with a space-free this is "
-           "[a] + split(r, n-1): lemma proved in task split_lemma); b' '.join concatenates with separators",
+           "[a] + split(r, n-1): lemma proved in task split_lemma); rsplit symmetrically (the last space of x is where x == u ++ ' ' ++ v with v "
+           "space-free); b' '.join concatenates with separators",
            "str.encode / bytes.decode: identity on the model's strings, decode raising UnicodeDecodeError exactly for byte strings outside an (uninterpreted) "
            "'decodable' set that contains every encoded str",
            "serializer / deserializer: deserialize(serialize(doc)) is doc's value (copy.deepcopy(doc) has doc's value); on any other payload the "
            "deserializer either returns or raises an arbitrary Exception (a class unrelated to every built-in one, ValueError, KeyError, "
-           "UnicodeDecodeError and EOFError are the enumerated representatives)",
+           "UnicodeDecodeError - the classes _poll names in its handlers - are the enumerated representatives)",
            "the transport delivers frames whole and in order (in-memory transport of the property); loop.call_soon is FIFO",
            "event_model.DocumentNames[name] raises KeyError for unknown names; known names contain no space",
            "zmq / zmq.asyncio objects are opaque (connect / socket / setsockopt are effect-free here)"]
-NOT_DECIDED = "real sockets, the Proxy, high-water marks; the start/stop of the polling task"
+NOT_DECIDED = ("real sockets, the Proxy, high-water marks; the start/stop of the polling task; deserializers that raise a BaseException outside "
+               "Exception; bytes-versus-str type errors inside the diagnostics printed for dropped frames (both are strings in the model)")
 KF = "C33-unknown-document-name-kills-poll-loop"
 KNOWN = ["start", "stop", "event", "descriptor", "event_page", "datum", "resource", "datum_page", "stream_resource", "stream_datum", "bulk_events", "bulk_datum"]
 DECODABLE = z3.Function("utf8_decodable", z3.StringSort(), z3.BoolSort())
 SP = z3.StringVal(" ")
 SPACE = "<space>"          # marker in flattened concatenations
 ANY_EXC = ClassInfo("SomeDeserializerError", bases=[BUILTIN_CLASSES["Exception"]], builtin=True)
-DESER_RAISES = [ANY_EXC, "ValueError", "KeyError", "UnicodeDecodeError", "EOFError"]
+DESER_RAISES = [ANY_EXC, "ValueError", "KeyError", "UnicodeDecodeError"]
 
 NM_RT = f"{MZ}:RemoteDispatcher._poll#ensures[a published frame is delivered intact iff the prefixes match]"
 NM_HIST = f"{MZ}:RemoteDispatcher._poll#ensures[interleaved frames of two publishers: exactly the frames of the dispatcher's publisher are delivered, in order]"
@@ -146,6 +148,36 @@ def install(I, printed):
             raise EngineError("only split(<space>[, <concrete maxsplit>]) is modelled")
         return split_sym(w, s.t, maxsplit)
     w.stubs["str.split"] = split
+
+    def rsplit(I_, s, args, kwargs):
+        """s.rsplit(b' ', n), n concrete >= 0: by recursion from the right (only mutated code uses it)"""
+        sep = args[0] if args else kwargs.get("sep")
+        maxsplit = args[1] if len(args) > 1 else kwargs.get("maxsplit", -1)
+        if not (isinstance(sep, (bytes, str)) and sep in (b" ", " ") and isinstance(maxsplit, int) and maxsplit >= 0):
+            raise EngineError("only rsplit(<space>, <concrete maxsplit>) is modelled")
+        # the last separator of x is characterised by x == u ++ ' ' ++ v with v space-free (u, v unique); trailing space-free pieces of a
+        # concatenation are resolved syntactically as in split_sym
+        items, out, n = flatten(s.t), [], 0
+        while n < maxsplit:
+            cand = [j for j in range(len(items)) if items[j] is SPACE or not space_free(w, items[j])]
+            if not cand:
+                break                                     # no space left
+            c = cand[-1]                                  # everything to the right of position c is space-free
+            if items[c] is SPACE:
+                out.insert(0, B(unflatten(items[c + 1:])))
+                items = items[:c]
+                n += 1
+                continue
+            x = items[c]
+            if not w.branch(ops.mk(z3.Contains(x, SP)), f"frame has separator #{n + 1} from the right"):
+                continue                                  # x is space-free on this path: look again
+            u, v = w.str("rsplit_head", fresh=True).t, w.str("rsplit_tail", fresh=True).t
+            w.add(ops.mk(z3.And(x == z3.Concat(u, SP, v), z3.Not(z3.Contains(v, SP)))))
+            out.insert(0, B(unflatten([v] + items[c + 1:])))
+            items = items[:c] + [u]
+            n += 1
+        return [B(unflatten(items))] + out
+    w.stubs["str.rsplit"] = rsplit
     w.stubs["str.encode"] = lambda I_, s, args: B(s.t) if isinstance(s, Sym) else B(z3.StringVal(s))
 
     def decode(I_, s, args):
@@ -155,9 +187,14 @@ def install(I, printed):
     w.stubs["str.decode"] = decode
 
     def docnames_getitem(I_, o, k):
-        for n in KNOWN:
-            if I_.truth(ops.eq(k, n), f"name == {n}"):
-                return o.spec["attrs"][n]
+        """DocumentNames[k]: the member named k (one object per name) / KeyError for any other key"""
+        hits = [ops.eq(k, n) for n in KNOWN]
+        if all(isinstance(h, bool) for h in hits):
+            if any(hits):
+                return o.spec["attrs"][KNOWN[hits.index(True)]]
+            I_.raise_("KeyError", k)
+        if I_.truth(Or(*hits), "name is a document name"):
+            return Opaque("DocumentNames[name]", {"token": "docname", "attrs": {"name": k}, "truth": True})
         I_.raise_("KeyError", k)
     names = {n: Opaque(f"DocumentNames.{n}", {"token": "docname", "attrs": {"name": n}, "truth": True}) for n in KNOWN}
     w.stubs[(MZ, "DocumentNames")] = Opaque("DocumentNames", {"getitem": docnames_getitem, "attrs": names, "isinstance_default": False})
@@ -280,6 +317,28 @@ def roundtrip(I):
     w.check(NM_RT, out[0] == "next" and len(scheduled) == 1 and delivered_is(scheduled[0], process, names[name], payload), rp)
 
 
+TWIN_RT = "twin:C33.a dispatcher delivers the frames of a publisher whose prefix extends its own"
+
+
+@task("roundtrip_twin", PROP, functions=[f"{MZ}:Publisher.__call__", f"{MZ}:RemoteDispatcher._poll"], twin=TWIN_RT)
+def roundtrip_twin(I):
+    """must fail: prefix matching is equality, not 'begins with'"""
+    w = I.w
+    scheduled, sent = [], []
+    install(I, [])
+    dprefix = space_free_bytes(w, "disp_prefix")
+    w.add(ops.not_(ops.eq(dprefix, b"")))
+    tail = space_free_bytes(w, "tail")
+    w.add(ops.not_(ops.eq(tail, b"")))
+    doc = Opaque("doc", {"token": "doc"})
+    pub = publisher(I, w, B(z3.Concat(dprefix.t, tail.t)), sent, [(doc, B(w.str("payload").t))])
+    w.add(ops.mk(DECODABLE(z3.StringVal("start"))))
+    I.call_value(pub, "start", doc)
+    d, process = dispatcher(I, w, dprefix, False, scheduled, [])
+    iterations(I, d, sent)
+    w.check(TWIN_RT, len(scheduled) == 1)
+
+
 @task("history", PROP, functions=[f"{MZ}:Publisher.__call__", f"{MZ}:RemoteDispatcher._poll"], expect=[NM_HIST],
       covers=["both delivered", "one delivered", "none delivered"])
 def history(I):
@@ -325,7 +384,7 @@ def history(I):
 
 @task("malformed", PROP, functions=[f"{MZ}:RemoteDispatcher._poll"], expect=[NM_MAL],
       covers=["no space", "one space", "undecodable name", "unknown name", "bad payload", "well-formed", "foreign prefix",
-              "deserializer raises an unrelated Exception"])
+              "deserializer raises an unrelated Exception"], timeout_s=2400)
 def malformed(I):
     w = I.w
     scheduled, printed = [], []
@@ -392,7 +451,9 @@ def malformed(I):
 
 @task("constructors", PROP, functions=[f"{MZ}:Publisher.__init__", f"{MZ}:RemoteDispatcher.__init__"],
       expect=[f"{MZ}:Publisher.__init__#raises[ValueError iff the prefix is a str or contains a space]",
-              f"{MZ}:RemoteDispatcher.__init__#raises[ValueError iff the prefix is a str or contains a space]"])
+              f"{MZ}:RemoteDispatcher.__init__#raises[ValueError iff the prefix is a str or contains a space]",
+              f"{MZ}:Publisher.__init__#ensures[the strict flag (default: not strict) and the (de)serializer are stored as given]",
+              f"{MZ}:RemoteDispatcher.__init__#ensures[the strict flag (default: not strict) and the (de)serializer are stored as given]"])
 def constructors(I):
     w = I.w
     install(I, [])
@@ -408,8 +469,16 @@ def constructors(I):
     which = w.choose(["Publisher", "RemoteDispatcher"], "class")
     I.call_hooks["bluesky.run_engine:Dispatcher.__init__"] = lambda I_, f, a, k: _ret(None)
     kw = {"prefix": prefix, "zmq": zmq}
+    codec = Opaque("codec", {"token": "codec"})
+    strict = None
     if which == "RemoteDispatcher":
         kw["zmq_asyncio"] = zmq
+        kw["deserializer"] = codec
+        strict = w.choose([False, True, "default"], "strict")
+        if strict != "default":
+            kw["strict"] = strict
+    else:
+        kw["serializer"] = codec
     r = catch(I, I.P.class_info(MZ, which), ("localhost", 5578), **kw)
     bad = Or(kind == "str", has_space)
     nm = f"{MZ}:{which}.__init__#raises[ValueError iff the prefix is a str or contains a space]"
@@ -417,6 +486,14 @@ def constructors(I):
         w.check(nm, And(exc_is(I, r[1], "ValueError"), bad), {"replay": "zmqframes.roundtrip"})
     else:
         w.check(nm, And(Not(bad), ops.eq(r[1]._prefix, prefix)), {"replay": "zmqframes.roundtrip"})
+        # the pre-state of the _poll / __call__ contracts is what the constructor was given
+        a = r[1].attrs
+        if which == "RemoteDispatcher":
+            stored = a.get("_deserializer") is codec and a.get("_strict") is (False if strict == "default" else strict)
+        else:
+            stored = a.get("_serializer") is codec
+        w.check(f"{MZ}:{which}.__init__#ensures[the strict flag (default: not strict) and the (de)serializer are stored as given]", stored,
+                {"replay": "zmqframes.constructed"})
 
 
 def _ret(v):
@@ -442,8 +519,16 @@ def split_lemma(I):
     s = z3.Concat(a, SP, r)
     w.add(ops.mk(z3.Not(z3.Contains(a, SP))))
     i = z3.IndexOf(s, SP, 0)
-    for g in (i == z3.Length(a), z3.SubString(s, 0, i) == a, z3.SubString(s, i + 1, z3.Length(s) - i - 1) == r, z3.IndexOf(a, SP, 0) < 0):
-        w.check(LEMMA, ops.mk(g))
+    import pyvc.world as W
+    budget = W.QUERY_TIMEOUT_MS
+    # z3's sequence solver gives up on the first part and cvc5 needs ~0.2 s; on a heavily loaded machine that can exceed the
+    # default budget, and every other task relies on this lemma: allow it a minute
+    W.QUERY_TIMEOUT_MS = max(budget, 60000)
+    try:
+        for g in (i == z3.Length(a), z3.SubString(s, 0, i) == a, z3.SubString(s, i + 1, z3.Length(s) - i - 1) == r, z3.IndexOf(a, SP, 0) < 0):
+            w.check(LEMMA, ops.mk(g))
+    finally:
+        W.QUERY_TIMEOUT_MS = budget
 
 
 @task("split_lemma_twin", PROP, twin="twin:C33.split rule without the space-free hypothesis")
